@@ -941,12 +941,18 @@ func (c *ctx) vecEv() {
 	case 1, 2:
 		num := g.Pick(2, 2, 6)
 		if num == 2 {
-			num = g.Range(2, 60)
+			num = g.BoundarySize(2, 60)
+			if g.Chance(1, 15) {
+				num = g.Range(1000, 5000) // long outputs: the far end must be right too
+			}
 		}
 		lo := g.Sym() * math.Pow(10, float64(g.Range(-2, 3)))
 		hi := g.Sym() * math.Pow(10, float64(g.Range(-2, 3)))
 		if which == 2 {
 			lo, hi = float64(g.Range(-8, 8))/2, float64(g.Range(-8, 8))/2
+		}
+		if g.Chance(1, 10) {
+			hi = lo // a degenerate range: every value is lo
 		}
 		var lin []float64
 		if !c.try("vec.Linspace", "", func() { lin = vec.Linspace(lo, hi, num) }) {
@@ -1036,7 +1042,11 @@ func (c *ctx) vecEv() {
 		var parts, shadows [][]float64
 		var want []float64
 		for i := 0; i < k; i++ {
-			xs, _ := c.genXs(g.Range(0, 8))
+			np := g.Range(0, 8)
+			if g.Chance(1, 20) {
+				np = g.Range(1000, 3000)
+			}
+			xs, _ := c.genXs(np)
 			if g.Chance(1, 4) {
 				xs = nil
 			}
